@@ -100,15 +100,39 @@ func runC03(c *Ctx) {
 		lg.Reset()
 		atomic.StoreInt64(&recvSeen, -1)
 
-		s := NewSession(SessionOpts{Flood: true, Log: lg})
+		floodOn := idx%3 == 1
+		// sessions whose handlers outlast Config.Timeout at teardown (nothing in the teardown may give up waiting for them)
+		slowTeardown := idx%5 == 2
+		if slowTeardown {
+			if ending == "drain" {
+				ending = "eof"
+			}
+			if nLines > 80 {
+				nLines = 80
+			}
+		}
+		s := NewSession(SessionOpts{Flood: !floodOn, Log: lg, Mutate: func(cfg *client.Config) {
+			if slowTeardown {
+				cfg.Timeout = 15 * time.Millisecond
+			}
+		}})
 		// six harness-only verbs plus verbs with built-in handlers or special parsing: a loop that treats
 		// some verb specially (fast paths, priorities) must obey the same ordering
-		verbNames := []string{"V0", "V1", "V2", "V3", "V4", "V5", "PING", "PRIVMSG", "NOTICE", "PONG", "MODE"}
+		verbNames := []string{"V0", "V1", "V2", "V3", "V4", "V5", "PRIVMSG", "NOTICE", "PONG", "MODE", "ERROR", "PING"}
+		// a third of the sessions run with the library's default flood protection; they avoid PING lines
+		// (the PONGs would be rate limited and stretch the session to minutes of real time)
+		if floodOn {
+			verbNames = verbNames[:len(verbNames)-1]
+		}
 		nV := len(verbNames)
 		nFg := make([]int, nV)
 		nBg := make([]int, nV)
 		hid := 0
 		dur := func(rr interface{ Intn(int) int }, seq int) {
+			if slowTeardown && rr.Intn(12) == 0 {
+				time.Sleep(60 * time.Millisecond)
+				return
+			}
 			switch durMix {
 			case 0:
 			case 1:
@@ -202,7 +226,7 @@ func runC03(c *Ctx) {
 				l = fmt.Sprintf(":n!u@h %s #%d :text", verb, i)
 			case "MODE":
 				l = fmt.Sprintf(":srv %s #%d +n", verb, i)
-			case "PING", "PONG":
+			case "PING", "PONG", "ERROR":
 				l = fmt.Sprintf("%s %d", verb, i)
 			}
 			if longLines && r.Intn(12) == 0 {
@@ -498,7 +522,7 @@ func runC03(c *Ctx) {
 			c.R.Count("sessions_with_line_across_segments", 1)
 		}
 		if sameLineOverlap && crossing {
-			c.R.Class(fmt.Sprintf("seg=%s|end=%s|procs=%s|dur=%d|long=%v|welcome=%v", segMode, endedBy, procs, durMix, longLines, welcomeAt >= 0))
+			c.R.Class(fmt.Sprintf("seg=%s|end=%s|procs=%s|dur=%d|long=%v|welcome=%v|floodprotection=%v|slow-teardown=%v", segMode, endedBy, procs, durMix, longLines, welcomeAt >= 0, floodOn, slowTeardown))
 		}
 		if idx%5 == 0 {
 			c.R.Sample(map[string]interface{}{"lines": nLines, "segmentation": segMode, "segments": len(cuts) + 1, "ending": endedBy, "duration_mix": durMix, "long_lines": longLines,
